@@ -2278,12 +2278,12 @@ func (interp *Interpreter) cfg(root *node, sc *scope, importPath, pkgName string
 			case n.rval.IsValid():
 				n.gen = nop
 				n.findex = notInFrame
-			case n.anc.kind == assignStmt && n.anc.action == aAssign && n.anc.nright == 1:
+			case n.anc.kind == assignStmt && n.anc.action == aAssign && n.anc.nright == 1 && !isInterface(n.anc.child[childPos(n)-n.anc.nright].typ):
 				dest := n.anc.child[childPos(n)-n.anc.nright]
 				n.typ = dest.typ
 				n.findex = dest.findex
 				n.level = dest.level
-			case directReturn(n, sc.def):
+			case directReturn(n, sc.def) && !isInterface(sc.def.typ.ret[childPos(n)]):
 				pos := childPos(n)
 				n.typ = sc.def.typ.ret[pos]
 				n.findex = pos
